@@ -366,7 +366,7 @@ BIT_STRING_decode_uper(const asn_codec_ctx_t *opt_codec_ctx,
 	if(csiz->effective_bits >= 0) {
 		FREEMEM(st->buf);
         st->size = (csiz->upper_bound + 7) >> 3;
-        st->buf = (uint8_t *)MALLOC(st->size + 1);
+        st->buf = (uint8_t *)CALLOC(1, st->size + 1);
 		if(!st->buf) { st->size = 0; RETURN(RC_FAIL); }
 	}
 
